@@ -1768,17 +1768,16 @@ class VM:
             return ("-" if n < 0 else "") + text
 
         def toString(*args):
-            radix = int(to_number(args[0])) if args else 10
-            if radix < 2 or radix > 36:
-                raise JSReferenceError("toString() radix must be between 2 and 36")
-            if radix == 10:
-                if isinstance(n, float) and n.is_integer():
-                    return str(int(n))
-                return str(n)
-            # Convert to different base
+            radix = to_number(args[0]) if args and args[0] is not UNDEFINED else 10
+            if not 2 <= radix < 37:  # NaN fails both comparisons
+                from .errors import JSRangeError
+
+                raise JSRangeError("toString() radix must be between 2 and 36")
+            if int(radix) == 10 or not math.isfinite(n) or n == 0:
+                return to_string(n)
             if n < 0:
-                return "-" + self._number_to_base(-n, radix)
-            return self._number_to_base(n, radix)
+                return "-" + self._number_to_base(-n, int(radix))
+            return self._number_to_base(n, int(radix))
 
         def toExponential(*args):
             if not math.isfinite(n):
@@ -1825,19 +1824,44 @@ class VM:
         return methods.get(method, lambda *args: UNDEFINED)
 
     def _number_to_base(self, n: float, radix: int) -> str:
-        """Convert number to string in given base."""
-        if n != int(n):
-            # For non-integers, just use base 10
-            return str(n)
-        n = int(n)
-        if n == 0:
-            return "0"
-        digits = "0123456789abcdefghijklmnopqrstuvwxyz"
-        result = []
-        while n:
-            result.append(digits[n % radix])
-            n //= radix
-        return "".join(reversed(result))
+        """Digits of a finite n > 0 in the given base.
+
+        The integer part is exact.  The fraction gets as many digits as
+        identify the double (what is left is below half an ulp); the last one
+        is rounded up when that stays within half an ulp.  Exact integer
+        arithmetic throughout.
+        """
+        chars = "0123456789abcdefghijklmnopqrstuvwxyz"
+        num, den = n.as_integer_ratio()
+        integer, frac = divmod(num, den)
+        digits = []
+        if frac:
+            scale = 2 * math.ulp(n).as_integer_ratio()[1]  # half an ulp = 1 / scale
+            frac *= scale // den
+            delta = 1
+            while frac >= delta:
+                frac *= radix
+                delta *= radix
+                digit, frac = divmod(frac, scale)
+                digits.append(digit)
+                if (2 * frac > scale or (2 * frac == scale and digit % 2)) and (
+                    frac + delta > scale
+                ):
+                    while digits and digits[-1] == radix - 1:
+                        digits.pop()  # carry
+                    if digits:
+                        digits[-1] += 1
+                    else:
+                        integer += 1
+                    break
+        text = ""
+        while integer:
+            integer, digit = divmod(integer, radix)
+            text = chars[digit] + text
+        text = text or "0"
+        if digits:
+            text += "." + "".join(chars[d] for d in digits)
+        return text
 
     def _make_string_method(self, s: str, method: str) -> Any:
         """Create a bound string method."""
